@@ -319,10 +319,12 @@ Proof.
   intros Hwf. destruct o; unfold step, step_gen; try (apply handler_wf; exact Hwf).
   - (* Save *) destruct (writable s); [apply wf_save|]; exact Hwf.
   - (* DelUser *) destruct (writable s); [apply wf_deluser|]; exact Hwf.
-  - (* Upsert *) destruct (writable s); [|exact Hwf]. apply wf_with_primary; [|exact Hwf].
-    destruct Hwf as [[Pp Ps] _]. split; [exact Pp|apply (nodup_aset skey_eqb skey_eqb_spec); exact Ps].
-  - (* DelSigned *) destruct (writable s); [|exact Hwf]. apply wf_with_primary; [|exact Hwf].
-    destruct Hwf as [[Pp Ps] _]. split; [exact Pp|apply (nodup_adel skey_eqb skey_eqb_spec); exact Ps].
+  - (* Upsert *) destruct (writable s); [|exact Hwf].
+    destruct Hwf as [[Pp Ps] [Cp Cs]]. repeat split; cbn [fst signed_both primary cache set_signed profiles signed]; try assumption;
+      apply (nodup_aset skey_eqb skey_eqb_spec); assumption.
+  - (* DelSigned *) destruct (writable s); [|exact Hwf].
+    destruct Hwf as [[Pp Ps] [Cp Cs]]. repeat split; cbn [fst signed_both primary cache set_signed profiles signed]; try assumption;
+      apply (nodup_adel skey_eqb skey_eqb_spec); assumption.
   - (* Tick *) exact Hwf.
   - (* Sync *) destruct (writable s); [|exact Hwf].
     destruct (sync_any (primary s) (now s) f (cache s)) as [H|H]; rewrite H; cbn [fst].
